@@ -20,8 +20,9 @@ import (
 // C20 — listener bandwidth limits bound throughput per direction without altering data.
 
 type c20Conn struct {
-	Kind  string `json:"kind"` // download | upload | tunnel-down | tunnel-up | download-chunked
+	Kind  string `json:"kind"` // download | upload | tunnel-down | tunnel-up | download-chunked | trickle-up | swarm-down
 	Bytes int    `json:"bytes"`
+	Count int    `json:"count,omitempty"` // swarm-down: that many short connections, one after the other, Bytes each
 }
 
 type c20Case struct {
@@ -70,6 +71,16 @@ func genC20(t *tape.Tape, tier string) any {
 		for _, i := range grp {
 			c.Conns[i].Bytes = per + t.Intn(5000)
 		}
+	}
+	if t.Chance(1, 8) {
+		// many short-lived connections, one at a time, each moving less than 64 KiB: together several times the
+		// burst, so the shared limiter must throttle them although no single connection moves much. Nothing else runs,
+		// so the other direction's limiter cannot pace the requests.
+		c.ReadLimit, c.WriteLimit = []int{1 << 20, 4 << 20, 16 << 20}[t.Intn(3)], 0
+		c.Conns = []c20Conn{{Kind: "swarm-down", Bytes: 30000 + t.Intn(30000), Count: 300 + t.Intn(150)}}
+		c.WOne = 0
+		c.WRand = t.Pick(3, 2) * 2
+		return c
 	}
 	if c.WriteLimit > 0 && t.Chance(1, 3) {
 		// slow peers on the limited direction: a byte now and then through a tunnel, for as long as the transfers run
@@ -278,6 +289,51 @@ func runC20(env *core.Env, ci any) {
 			if cn.Kind != "trickle-up" {
 				defer mainWG.Done()
 			}
+			if cn.Kind == "swarm-down" {
+				if twoPhases && isUp(cn.Kind) != firstPhaseUp {
+					<-phase1Done
+				} else if twoPhases {
+					defer phase1.Done()
+				}
+				for j := 0; j < cn.Count; j++ {
+					raw, err := n.Dial(context.Background(), fmt.Sprintf("client%d", i), s.Addr)
+					if err != nil {
+						fails[i] = err.Error()
+						return
+					}
+					conn := raw.(*simnet.Conn)
+					fmt.Fprintf(conn, "GET http://%s.ok.example/%s HTTP/1.1\r\nHost: %s.ok.example\r\nConnection: close\r\n\r\n", tok, tok, tok)
+					br := bufio.NewReaderSize(conn, 64<<10)
+					m, err := h1.ReadResponseHead(br)
+					if err != nil || m.Status != 200 {
+						fails[i] = fmt.Sprintf("swarm connection %d: response head: %v", j, err)
+						conn.Close()
+						return
+					}
+					down.add(len(m.HeadRaw))
+					buf := make([]byte, 32<<10)
+					got := 0
+					for got < cn.Bytes {
+						k, err := br.Read(buf[:minInt(len(buf), cn.Bytes-got)])
+						if k > 0 {
+							if d := streamCheck(tokenSeed(tok)^1, got, buf[:k]); d >= 0 && fails[i] == "" {
+								fails[i] = fmt.Sprintf("swarm connection %d: byte %d differs", j, d)
+							}
+							got += k
+							down.add(k)
+						}
+						if err != nil {
+							fails[i] = fmt.Sprintf("swarm connection %d: read after %d of %d bytes: %v", j, got, cn.Bytes, err)
+							conn.Close()
+							return
+						}
+					}
+					conn.Close()
+					done[i] += got
+				}
+				env.Probe("swarm_of_short_connections")
+				return
+			}
 			if twoPhases && cn.Kind != "trickle-up" {
 				if isUp(cn.Kind) == firstPhaseUp {
 					defer phase1.Done()
@@ -449,6 +505,14 @@ func runC20(env *core.Env, ci any) {
 			return
 		}
 		slack := int64(nConns) * (64 << 10)
+		intermittent := false
+		for _, cn := range c.Conns {
+			if cn.Kind == "swarm-down" {
+				intermittent = true
+				// a window can contain the last write of one short connection and the first write of the next two
+				slack += 2 * (64 << 10)
+			}
+		}
 		// every window after the clock first moved
 		ss := m.samples
 		for a := 0; a < len(ss); a++ {
@@ -458,8 +522,11 @@ func runC20(env *core.Env, ci any) {
 				}
 				dt := ss[b].at - ss[a].at
 				allowed := int64(float64(limit)*dt.Seconds()) + slack
-				if a == 0 {
-					allowed += burst // windows that include the initial burst
+				if a == 0 || intermittent {
+					// windows that include the initial burst; and when the limited direction is not kept busy all the
+					// time (short connections whose requests wait for the other direction's limiter) the bucket refills
+					// in the gaps, so any window may carry a burst again
+					allowed += burst
 				}
 				if got := ss[b].n - ss[a].n; got > allowed {
 					env.Fail("limit-exceeded", name, "%s limit %d B/s over %d connections: %d bytes crossed between %v and %v (%v), allowed %d (= rate x time + %d slack%s); observed burst %d", name, limit, nConns, got, ss[a].at, ss[b].at, dt, allowed, slack, map[bool]string{true: " + burst", false: ""}[a == 0], burst)
